@@ -551,6 +551,54 @@ def _crop_upper(fn, var, nth=0):
     raise TranslateError('crop #%d of %s not found in %s' % (nth, var, fn.name))
 
 
+def _call_arg_kw(fn, fname, idx, kw, kwval):
+    """argument `idx` of the call of `fname` whose keyword `kw` has the literal value `kwval`"""
+    for node in ast.walk(fn):
+        if isinstance(node, ast.Call) and ast.unparse(node.func) == fname:
+            for k in node.keywords:
+                if k.arg == kw and isinstance(k.value, ast.Constant) and k.value.value == kwval:
+                    return node.args[idx]
+    raise TranslateError('call of %s with %s=%r not found in %s' % (fname, kw, kwval, fn.name))
+
+
+def _crop_upper_at(fn, var, pos, nth=0):
+    """v = v[..., :a, :b]  ->  the upper bound of the slice at position `pos` (negative, from the end)"""
+    k = 0
+    for st in _walk_stmts(fn.body):
+        if (isinstance(st, ast.Assign) and len(st.targets) == 1 and isinstance(st.targets[0], ast.Name) and st.targets[0].id == var
+                and isinstance(st.value, ast.Subscript) and ast.unparse(st.value.value) == var and isinstance(st.value.slice, ast.Tuple)):
+            sl = st.value.slice.elts[pos]
+            if isinstance(sl, ast.Slice) and sl.lower is None and sl.upper is not None and sl.step is None:
+                if k == nth:
+                    return sl.upper
+                k += 1
+    raise TranslateError('two-axis crop #%d of %s not found in %s' % (nth, var, fn.name))
+
+
+def _fold_stmt_at(fn, var, pos_from_end, nth=0):
+    """like _fold_stmt, for v[:, :, :a] = v[:, :, :a] + v[:, :, b:c] where the sliced axis is the LAST subscript given"""
+    return _fold_stmt(fn, var, nth)
+
+
+def _tuple_elt(e, idx):
+    if not isinstance(e, ast.Tuple):
+        raise TranslateError('expected a tuple, got %s' % ast.unparse(e))
+    return e.elts[idx]
+
+
+def _kwarg_of_call(fn, fname, kw, nth=0):
+    k = 0
+    for st in _walk_stmts(fn.body):
+        for node in ast.walk(st):
+            if isinstance(node, ast.Call) and ast.unparse(node.func) == fname:
+                for a in node.keywords:
+                    if a.arg == kw:
+                        if k == nth:
+                            return a.value
+                        k += 1
+    raise TranslateError('keyword %s of call #%d of %s not found in %s' % (kw, nth, fname, fn.name))
+
+
 def _find_method(path, cls, name):
     tree = ast.parse(open(path).read())
     for n in tree.body:
@@ -614,11 +662,50 @@ def gen_sizes():
     t = SizeTranslator(ff, {})
     d('dtcwt_fwd_rows_odd', ['r'], t.expr(_if_test(ff, 'r % 2')), prop=True); d('dtcwt_fwd_cols_odd', ['c'], t.expr(_if_test(ff, 'c % 2')), prop=True)
     d('dtcwt_fwd_rows_pad4', ['r'], t.expr(_if_test(ff, 'r % 4')), prop=True); d('dtcwt_fwd_cols_pad4', ['c'], t.expr(_if_test(ff, 'c % 4')), prop=True)
+    # --- the non-separable banks (C19) and the a-trous bank (C13)
+    fn = _find_fn(low, 'afb2d_nonsep')
+    t = SizeTranslator(fn, {'x.shape[2]': 'Ny', 'x.shape[3]': 'Nx'})
+    d('nonsep_per_odd_rows', ['Ny'], t.expr(_if_test(fn, 'x.shape[2] % 2')), prop=True)
+    d('nonsep_per_odd_cols', ['Nx'], t.expr(_if_test(fn, 'x.shape[3] % 2')), prop=True)
+    padp = _assign_value(fn, 'pad', 0)
+    d('nonsep_per_pad_y', ['Ly'], t.expr(_tuple_elt(padp, 0))); d('nonsep_per_pad_x', ['Lx'], t.expr(_tuple_elt(padp, 1)))
+    strd = _assign_value(fn, 'stride', 0)
+    d('nonsep_per_stride_y', [], t.expr(_tuple_elt(strd, 0))); d('nonsep_per_stride_x', [], t.expr(_tuple_elt(strd, 1)))
+    d('nonsep_per_shift_y', ['Ly'], t.expr(_call_arg_kw(fn, 'roll', 1, 'dim', 2))); d('nonsep_per_shift_x', ['Lx'], t.expr(_call_arg_kw(fn, 'roll', 1, 'dim', 3)))
+    a, b, c = _fold_stmt(fn, 'y', 0)
+    d('nonsep_per_fold_width_y', ['Ly', 'Ny'], t.expr(a)); d('nonsep_per_fold_from_y', ['Ly', 'Ny'], t.expr(b)); d('nonsep_per_fold_to_y', ['Ly', 'Ny'], t.expr(c))
+    a, b, c = _fold_stmt(fn, 'y', 1)
+    d('nonsep_per_fold_width_x', ['Lx', 'Nx'], t.expr(a)); d('nonsep_per_fold_from_x', ['Lx', 'Nx'], t.expr(b)); d('nonsep_per_fold_to_x', ['Lx', 'Nx'], t.expr(c))
+    d('nonsep_per_crop_y', ['Ny'], t.expr(_crop_upper_at(fn, 'y', -2))); d('nonsep_per_crop_x', ['Nx'], t.expr(_crop_upper_at(fn, 'y', -1)))
+    d('nonsep_p1', ['out1', 'Ny', 'Ly'], t.expr(_assign_value(fn, 'p1'))); d('nonsep_p2', ['out2', 'Nx', 'Lx'], t.expr(_assign_value(fn, 'p2')))
+    zp = _kwarg_of_call(fn, 'F.conv2d', 'padding', 1)
+    d('nonsep_zero_pad_y', ['p1'], t.expr(_tuple_elt(zp, 0))); d('nonsep_zero_pad_x', ['p2'], t.expr(_tuple_elt(zp, 1)))
+    pe = _assign_value(fn, 'pad', 1)
+    d('nonsep_ext_before_x', ['p2'], t.expr(_tuple_elt(pe, 0))); d('nonsep_ext_after_x', ['p2'], t.expr(_tuple_elt(pe, 1)))
+    d('nonsep_ext_before_y', ['p1'], t.expr(_tuple_elt(pe, 2))); d('nonsep_ext_after_y', ['p1'], t.expr(_tuple_elt(pe, 3)))
+
+    fn = _find_fn(low, 'sfb2d_nonsep')
+    t = SizeTranslator(fn, {})
+    a, b, c = _fold_stmt(fn, 'll', 0)
+    d('nonsep_syn_fold_width_y', ['Ly', 'Ny'], t.expr(a)); d('nonsep_syn_fold_from_y', ['Ly', 'Ny'], t.expr(b)); d('nonsep_syn_fold_to_y', ['Ly', 'Ny'], t.expr(c))
+    a, b, c = _fold_stmt(fn, 'll', 1)
+    d('nonsep_syn_fold_width_x', ['Lx', 'Nx'], t.expr(a)); d('nonsep_syn_fold_from_x', ['Lx', 'Nx'], t.expr(b)); d('nonsep_syn_fold_to_x', ['Lx', 'Nx'], t.expr(c))
+    d('nonsep_syn_crop_y', ['Ny'], t.expr(_crop_upper_at(fn, 'll', -2))); d('nonsep_syn_crop_x', ['Nx'], t.expr(_crop_upper_at(fn, 'll', -1)))
+    d('nonsep_syn_shift_y', ['Ly'], t.expr(_call_arg_kw(fn, 'roll', 1, 'dim', 2))); d('nonsep_syn_shift_x', ['Lx'], t.expr(_call_arg_kw(fn, 'roll', 1, 'dim', 3)))
+    pads = _assign_value(fn, 'pad', 0)
+    d('nonsep_syn_pad_y', ['Ly'], t.expr(_tuple_elt(pads, 0))); d('nonsep_syn_pad_x', ['Lx'], t.expr(_tuple_elt(pads, 1)))
+
+    fn = _find_fn(low, 'afb1d_atrous')
+    t = SizeTranslator(fn, {})
+    d('atrous_L2', ['L', 'dilation'], t.expr(_assign_value(fn, 'L2')))
+    pada = _assign_value(fn, 'pad', 0)
+    d('atrous_before_H', ['L2', 'dilation'], t.expr(_ifexp_tuple(pada, 'body', 2))); d('atrous_after_H', ['L2', 'dilation'], t.expr(_ifexp_tuple(pada, 'body', 3)))
+    d('atrous_before_W', ['L2', 'dilation'], t.expr(_ifexp_tuple(pada, 'orelse', 0))); d('atrous_after_W', ['L2', 'dilation'], t.expr(_ifexp_tuple(pada, 'orelse', 1)))
     out.append('\nend WV.Gen.Sizes\n')
     return _write(os.path.join(GEN, 'Sizes.lean'), '\n'.join(out))
 
 
-SIZE_PROPS = {'C01', 'C10', 'C08', 'C03'}     # the properties whose theorem lists include the size-arithmetic tie (C01Z)
+SIZE_PROPS = {'C01', 'C10', 'C08', 'C03', 'C19', 'C13'}     # the properties whose theorem lists include the size-arithmetic tie (C01Z)
 
 PAD_PROPS = {'C01', 'C03', 'C04', 'C11'}      # the properties whose theorem lists include the padding-helper tie (C03T)
 
